@@ -440,8 +440,12 @@ RULE = ("PART A (exhaustive, no randomness in the structure): every (operation, 
 def correspondence(ctx):
     cases, res = run_cases(ctx)
     ev = evaluate(cases, res, lambda f: True)
-    failures = ev["failures"]
-    notes = ev["notes"]
+    # the cut x short-buffer-read cases (PART G) belong to C17: their findings are reported through
+    # conn_cut_cases (./check C17) and only noted here
+    c17_only = lambda k: str(k) == "C17-short-buffer-error-hides-later-cut"
+    failures = [f for f in ev["failures"] if not c17_only(f.get("key"))]
+    notes = ev["notes"] + ["C17 (Conn half) finding, reported by ./check C17 through conn_cut_cases: " + str(f.get("key")) + ": " + f["what"][:260]
+                           for f in ev["failures"] if c17_only(f.get("key")) and f["what"].startswith(("fetchread", "connread"))]
     sel = ev["sel"]
     n_exh = sum(1 for c in sel if "exh" in feats_of(c))
     samples = [c["line"][:260] + " | " + c["go"][:120] + " | " + c["feats"]
